@@ -124,7 +124,27 @@ class C14(Check):
             except OutOfReplies:
                 return 3
             return 0 if ret is not None else 1
-        out = asyncio.run(go())
+        # a slow terminal: every poll of the AL status takes 4 s of (monotonic) time - whatever clock the code under test may consult
+        import time as _time
+        import ebpfcat.ethercat as ethercat
+        clock = [1000.0]
+
+        def fake_monotonic():
+            clock[0] += 0.0001
+            return clock[0] + 4.0 * len(trace)
+        saved = {}
+        if hasattr(ethercat, "monotonic"):
+            saved["monotonic"] = ethercat.monotonic
+            ethercat.monotonic = fake_monotonic
+        if hasattr(ethercat, "time"):
+            saved["time"] = ethercat.time
+            ethercat.time = type("FakeTime", (), {"monotonic": staticmethod(fake_monotonic), "time": staticmethod(fake_monotonic),
+                                                  "__getattr__": lambda self, n: getattr(_time, n)})()
+        try:
+            out = asyncio.run(go())
+        finally:
+            for k, v in saved.items():
+                setattr(ethercat, k, v)
         return [trace, out]
 
     def model_term(self, case):
